@@ -12,6 +12,29 @@ from mc.report import Reporter
 from mc.runner import run_tasks
 
 
+def choose_alphabet(env: Any) -> Any:
+    """-> (actions | None, note | None).  None = the complete alphabet of the action spec.  A joint alphabet beyond
+    enumeration (default Connector: 5**10) is replaced by 256 evenly spaced members, one whose successors would
+    take more than 250 MB per expanded state (default MMST: 36**3 actions, 1.3 GB) by 1024; such a model is
+    never reported as closed."""
+    import jax
+    import numpy as np
+
+    from mc.engine import all_actions, spaced_actions
+
+    try:
+        n_all = len(all_actions(env.action_spec))
+    except ValueError:
+        acts, total = spaced_actions(env.action_spec, 256)
+        return acts, f"{len(acts)} evenly spaced members of an alphabet of {total}"
+    shp = jax.eval_shape(env.reset, jax.random.PRNGKey(0))
+    pair = sum(int(np.prod(x.shape)) * x.dtype.itemsize for x in jax.tree_util.tree_leaves(shp))
+    if n_all * pair > 250e6:
+        acts, total = spaced_actions(env.action_spec, 1024)
+        return acts, f"{len(acts)} evenly spaced members of an alphabet of {total} (memory bound)"
+    return None, None
+
+
 def explore_model(pid: str, cfg_name: str, tier: str, seed: int, **kw: Any) -> Dict[str, Any]:
     """Worker: explore one configuration with the monitors of property `pid`."""
     from mc.engine import Explorer
@@ -38,13 +61,7 @@ def explore_model(pid: str, cfg_name: str, tier: str, seed: int, **kw: Any) -> D
     exkw.update(plan)
     sub_alphabet = None
     if exkw.get("actions") is None:
-        from mc.engine import all_actions, spaced_actions
-
-        try:
-            all_actions(env.action_spec)
-        except ValueError:  # joint alphabet beyond enumeration (default Connector: 5**10): evenly spaced members, never "closed"
-            exkw["actions"], total = spaced_actions(env.action_spec, 256)
-            sub_alphabet = f"{len(exkw['actions'])} evenly spaced members of an alphabet of {total}"
+        exkw["actions"], sub_alphabet = choose_alphabet(env)
     ex = Explorer(env, cfg_name, pid, monitors=monitors, **exkw)
     if pre is not None:
         pre(ex)
